@@ -6,101 +6,74 @@ Import ListNotations.
 
 (* a (sub)configuration is rendered field by field, a list of configurations item by item, with the mask in force *)
 Theorem C10_tree_slot_unfold_sub :
-  forall (F : Type) (lto_basic : F -> pyval -> res pyval) (lsensitive : F -> bool) (py_strlen : pyval -> option nat) (mask : option str) (dy : bool) (vs : list N) (fs : list (str * node F)) (p : str) (c : cfg),
-    tree_slot F lto_basic lsensitive py_strlen mask (NSub dy vs fs) p (VCfg c) = render_cfg (fields_of F lto_basic lsensitive py_strlen mask fs) p c.
+  forall (F : Type) (lto_basic : F -> pyval -> res pyval) (lsensitive : F -> bool) (py_strlen : pyval -> option nat) (mask : option str) (dy : bool) (vs : list N) (fs : list (str * node F)) (p : str) (c : cfg), tree_slot F lto_basic lsensitive py_strlen mask (NSub dy vs fs) p (VCfg c) = render_cfg (fields_of F lto_basic lsensitive py_strlen mask fs) p c.
 Proof. exact tree_slot_unfold_sub. Qed.
 Print Assumptions C10_tree_slot_unfold_sub.
 
 Theorem C10_tree_slot_unfold_list :
-  forall (F : Type) (lto_basic : F -> pyval -> res pyval) (lsensitive : F -> bool) (py_strlen : pyval -> option nat) (mask : option str) (rq : bool) (vs : list N) (fs : list (str * node F)) (p : str) (l : list cfg),
-    tree_slot F lto_basic lsensitive py_strlen mask (NCfgList rq vs fs) p (VList l) = list_result (render_items (render_cfg (fields_of F lto_basic lsensitive py_strlen mask fs)) p l 0).
+  forall (F : Type) (lto_basic : F -> pyval -> res pyval) (lsensitive : F -> bool) (py_strlen : pyval -> option nat) (mask : option str) (rq : bool) (vs : list N) (fs : list (str * node F)) (fsq : option (bool * list pyval)) (p : str) (l : list cfg), tree_slot F lto_basic lsensitive py_strlen mask (NCfgList rq vs fs fsq) p (VList l) = list_result (render_items (render_cfg (fields_of F lto_basic lsensitive py_strlen mask fs)) p l 0).
 Proof. exact tree_slot_unfold_list. Qed.
 Print Assumptions C10_tree_slot_unfold_list.
 
 (* with a mask, to_tree is the map over the schema that sends every sensitive leaf to mask_leaf and every other leaf to to_basic *)
 Theorem C10_mask_tree :
-  forall (F : Type) (lto_basic : F -> pyval -> res pyval) (lsensitive : F -> bool) (py_strlen : pyval -> option nat) (m : str) (nd : node F) (p : str) (v : val),
-    tree_slot F lto_basic lsensitive py_strlen (Some m) nd p v =
-    spec_slot F (fun (f : F) (q : str) (x : pyval) => if lsensitive f then mask_leaf py_strlen m x else basic_leaf F lto_basic f q x) nd p v.
+  forall (F : Type) (lto_basic : F -> pyval -> res pyval) (lsensitive : F -> bool) (py_strlen : pyval -> option nat) (m : str) (nd : node F) (p : str) (v : val), tree_slot F lto_basic lsensitive py_strlen (Some m) nd p v = spec_slot F (fun (f : F) (q : str) (x : pyval) => if lsensitive f then mask_leaf py_strlen m x else basic_leaf F lto_basic f q x) nd p v.
 Proof. exact mask_tree. Qed.
 Print Assumptions C10_mask_tree.
 
 (* without a mask nothing is altered *)
 Theorem C10_mask_none :
-  forall (F : Type) (lto_basic : F -> pyval -> res pyval) (lsensitive : F -> bool) (py_strlen : pyval -> option nat) (nd : node F) (p : str) (v : val),
-    tree_slot F lto_basic lsensitive py_strlen None nd p v = spec_slot F (basic_leaf F lto_basic) nd p v.
+  forall (F : Type) (lto_basic : F -> pyval -> res pyval) (lsensitive : F -> bool) (py_strlen : pyval -> option nat) (nd : node F) (p : str) (v : val), tree_slot F lto_basic lsensitive py_strlen None nd p v = spec_slot F (basic_leaf F lto_basic) nd p v.
 Proof. exact mask_none. Qed.
 Print Assumptions C10_mask_none.
 
 Theorem C10_nonsensitive_identical :
-  forall (F : Type) (lto_basic : F -> pyval -> res pyval) (lsensitive : F -> bool) (py_strlen : pyval -> option nat) (m : str) (nd : node F) (p : str) (v : val),
-    (forall f : F, leaf_in nd f -> lsensitive f = false) ->
-    tree_slot F lto_basic lsensitive py_strlen (Some m) nd p v = tree_slot F lto_basic lsensitive py_strlen None nd p v.
+  forall (F : Type) (lto_basic : F -> pyval -> res pyval) (lsensitive : F -> bool) (py_strlen : pyval -> option nat) (m : str) (nd : node F) (p : str) (v : val), (forall f : F, leaf_in nd f -> lsensitive f = false) -> tree_slot F lto_basic lsensitive py_strlen (Some m) nd p v = tree_slot F lto_basic lsensitive py_strlen None nd p v.
 Proof. exact nonsensitive_identical. Qed.
 Print Assumptions C10_nonsensitive_identical.
 
 (* the masked rendering: None for a falsy value, a one-character mask once per character of str(value), any other mask verbatim *)
 Theorem C10_mask_leaf_cases :
-  forall (py_strlen : pyval -> option nat) (m : str) (x : pyval),
-    (py_falsy x = true -> mask_leaf py_strlen m x = Ok PNone) /\
-    (py_falsy x = false -> forall (ch : N) (n : nat), m = [ch] -> py_strlen x = Some n -> mask_leaf py_strlen m x = Ok (PStr (repeat ch n))) /\
-    (py_falsy x = false -> length m <> 1%nat -> mask_leaf py_strlen m x = Ok (PStr m)).
+  forall (py_strlen : pyval -> option nat) (m : str) (x : pyval), (py_falsy x = true -> mask_leaf py_strlen m x = Ok PNone) /\ (py_falsy x = false -> forall (ch : N) (n : nat), m = [ch] -> py_strlen x = Some n -> mask_leaf py_strlen m x = Ok (PStr (repeat ch n))) /\ (py_falsy x = false -> Datatypes.length m <> 1%nat -> mask_leaf py_strlen m x = Ok (PStr m)).
 Proof. exact mask_leaf_cases. Qed.
 Print Assumptions C10_mask_leaf_cases.
 
 Theorem C10_mask_leaf_never_value :
-  forall (py_strlen : pyval -> option nat) (m : str) (x r : pyval),
-    mask_leaf py_strlen m x = Ok r ->
-    r = PNone \/ r = PStr m \/ (exists (ch : N) (n : nat), m = [ch] /\ py_strlen x = Some n /\ r = PStr (repeat ch n)).
+  forall (py_strlen : pyval -> option nat) (m : str) (x r : pyval), mask_leaf py_strlen m x = Ok r -> r = PNone \/ r = PStr m \/ (exists (ch : N) (n : nat), m = [ch] /\ py_strlen x = Some n /\ r = PStr (repeat ch n)).
 Proof. exact mask_leaf_never_value. Qed.
 Print Assumptions C10_mask_leaf_never_value.
 
 (* at the position of every sensitive leaf -- any depth, inside list items -- the tree holds mask_leaf of the stored value *)
 Theorem C10_sensitive_position_masked :
-  forall (F : Type) (lto_basic : F -> pyval -> res pyval) (lsensitive : F -> bool) (py_strlen : pyval -> option nat) (m : str) (ps : list pstep) (fs : list (str * node F)) (c : cfg) (t : pyval) (f : F) (x : pyval),
-    to_tree F lto_basic lsensitive py_strlen (Some m) fs c = Ok t ->
-    leaf_at fs c ps = Some (f, x) -> lsensitive f = true ->
-    exists r : pyval, out_at t ps = Some r /\ mask_leaf py_strlen m x = Ok r.
+  forall (F : Type) (lto_basic : F -> pyval -> res pyval) (lsensitive : F -> bool) (py_strlen : pyval -> option nat) (m : str) (ps : list pstep) (fs : list (str * node F)) (c : cfg) (t : pyval) (f : F) (x : pyval), to_tree F lto_basic lsensitive py_strlen (Some m) fs c = Ok t -> leaf_at fs c ps = Some (f, x) -> lsensitive f = true -> exists r : pyval, out_at t ps = Some r /\ mask_leaf py_strlen m x = Ok r.
 Proof. exact sensitive_position_masked. Qed.
 Print Assumptions C10_sensitive_position_masked.
 
 (* ... and at the position of every other leaf, with or without a mask, its to_basic value *)
 Theorem C10_nonsensitive_position_plain :
-  forall (F : Type) (lto_basic : F -> pyval -> res pyval) (lsensitive : F -> bool) (py_strlen : pyval -> option nat) (mask : option str) (ps : list pstep) (fs : list (str * node F)) (c : cfg) (t : pyval) (f : F) (x : pyval),
-    to_tree F lto_basic lsensitive py_strlen mask fs c = Ok t ->
-    leaf_at fs c ps = Some (f, x) -> lsensitive f = false ->
-    exists r : pyval, out_at t ps = Some r /\ lto_basic f x = Ok r.
+  forall (F : Type) (lto_basic : F -> pyval -> res pyval) (lsensitive : F -> bool) (py_strlen : pyval -> option nat) (mask : option str) (ps : list pstep) (fs : list (str * node F)) (c : cfg) (t : pyval) (f : F) (x : pyval), to_tree F lto_basic lsensitive py_strlen mask fs c = Ok t -> leaf_at fs c ps = Some (f, x) -> lsensitive f = false -> exists r : pyval, out_at t ps = Some r /\ lto_basic f x = Ok r.
 Proof. exact nonsensitive_position_plain. Qed.
 Print Assumptions C10_nonsensitive_position_plain.
 
 (* the masked tree does not depend on how sensitive values would have been converted ... *)
 Theorem C10_mask_independent_of_sensitive_rendering :
-  forall (F : Type) (lb1 lb2 : F -> pyval -> res pyval) (lsensitive : F -> bool) (py_strlen : pyval -> option nat) (m : str) (nd : node F) (p : str) (v : val),
-    (forall (f : F) (x : pyval), lsensitive f = false -> lb1 f x = lb2 f x) ->
-    tree_slot F lb1 lsensitive py_strlen (Some m) nd p v = tree_slot F lb2 lsensitive py_strlen (Some m) nd p v.
+  forall (F : Type) (lb1 lb2 : F -> pyval -> res pyval) (lsensitive : F -> bool) (py_strlen : pyval -> option nat) (m : str) (nd : node F) (p : str) (v : val), (forall (f : F) (x : pyval), lsensitive f = false -> lb1 f x = lb2 f x) -> tree_slot F lb1 lsensitive py_strlen (Some m) nd p v = tree_slot F lb2 lsensitive py_strlen (Some m) nd p v.
 Proof. exact mask_independent_of_sensitive_rendering. Qed.
 Print Assumptions C10_mask_independent_of_sensitive_rendering.
 
 (* ... and two states that differ only in sensitive values of equal truthiness and text length give the same masked tree *)
 Theorem C10_masked_noninterference :
-  forall (F : Type) (lto_basic : F -> pyval -> res pyval) (lsensitive : F -> bool) (py_strlen : pyval -> option nat) (m : str) (nd : node F) (p : str) (v1 v2 : val),
-    low_eq F lsensitive py_strlen nd v1 v2 ->
-    tree_slot F lto_basic lsensitive py_strlen (Some m) nd p v1 = tree_slot F lto_basic lsensitive py_strlen (Some m) nd p v2.
+  forall (F : Type) (lto_basic : F -> pyval -> res pyval) (lsensitive : F -> bool) (py_strlen : pyval -> option nat) (m : str) (nd : node F) (p : str) (v1 v2 : val), low_eq F lsensitive py_strlen nd v1 v2 -> tree_slot F lto_basic lsensitive py_strlen (Some m) nd p v1 = tree_slot F lto_basic lsensitive py_strlen (Some m) nd p v2.
 Proof. exact masked_noninterference. Qed.
 Print Assumptions C10_masked_noninterference.
 
 (* masked and unmasked trees have the same keys in the same order at every level and lists of the same length *)
 Theorem C10_mask_structure :
-  forall (F : Type) (lto_basic : F -> pyval -> res pyval) (lsensitive : F -> bool) (py_strlen : pyval -> option nat) (m : str) (nd : node F) (p : str) (v : val) (t1 t2 : pyval),
-    tree_slot F lto_basic lsensitive py_strlen (Some m) nd p v = Ok t1 ->
-    tree_slot F lto_basic lsensitive py_strlen None nd p v = Ok t2 -> shape nd t1 t2.
+  forall (F : Type) (lto_basic : F -> pyval -> res pyval) (lsensitive : F -> bool) (py_strlen : pyval -> option nat) (m : str) (nd : node F) (p : str) (v : val) (t1 t2 : pyval), tree_slot F lto_basic lsensitive py_strlen (Some m) nd p v = Ok t1 -> tree_slot F lto_basic lsensitive py_strlen None nd p v = Ok t2 -> shape nd t1 t2.
 Proof. exact mask_structure. Qed.
 Print Assumptions C10_mask_structure.
 
 Theorem C10_mask_same_keys :
-  forall (F : Type) (lto_basic : F -> pyval -> res pyval) (lsensitive : F -> bool) (py_strlen : pyval -> option nat) (m : str) (fs : list (str * node F)) (c : cfg) (t1 t2 : pyval),
-    to_tree F lto_basic lsensitive py_strlen (Some m) fs c = Ok t1 ->
-    to_tree F lto_basic lsensitive py_strlen None fs c = Ok t2 ->
-    exists d1 d2 : list (pyval * pyval), t1 = PDict 0 d1 /\ t2 = PDict 0 d2 /\ map fst d1 = map fst d2.
+  forall (F : Type) (lto_basic : F -> pyval -> res pyval) (lsensitive : F -> bool) (py_strlen : pyval -> option nat) (m : str) (fs : list (str * node F)) (c : cfg) (t1 t2 : pyval), to_tree F lto_basic lsensitive py_strlen (Some m) fs c = Ok t1 -> to_tree F lto_basic lsensitive py_strlen None fs c = Ok t2 -> exists d1 d2 : list (pyval * pyval), t1 = PDict 0 d1 /\ t2 = PDict 0 d2 /\ map fst d1 = map fst d2.
 Proof. exact mask_same_keys. Qed.
 Print Assumptions C10_mask_same_keys.
